@@ -290,7 +290,7 @@ def report(mod, tier, seed, agg, known, vac, wall, replay):
     for _, (k, vs) in known_hit.items():
         print(f"KNOWN-FINDING: property={pid} {k['what']} (signature {json.dumps(k['signature'], sort_keys=True)}; {len(vs)} case(s) kept)")
     # replay files for new violations (one per distinct signature, first case)
-    rdir = os.path.join(VERIF_DIR, "replays", pid)
+    rdir = os.path.join(os.environ.get("VERIF_OUT_DIR", VERIF_DIR), "replays", pid)
     seen_sigs = {}
     for v in new_viol:
         s = json.dumps(v["sig"], sort_keys=True)
@@ -309,7 +309,7 @@ def report(mod, tier, seed, agg, known, vac, wall, replay):
         print(f"VIOLATION property={pid} replay={path}")
         print(f"   signature={s} cases={n}\n   " + v["msg"].replace("\n", "\n   ")[:1500])
     if vac:
-        path = os.path.join(VERIF_DIR, "replays", pid, "vacuous.json")
+        path = os.path.join(os.environ.get("VERIF_OUT_DIR", VERIF_DIR), "replays", pid, "vacuous.json")
         os.makedirs(os.path.dirname(path), exist_ok=True)
         with open(path, "w") as f:
             json.dump({"property": pid, "vacuous": vac}, f)
@@ -358,8 +358,9 @@ def write_evidence(mod, tier, seed, agg, wall, nviol, known_hit):
               f"numpy {numpy.__version__}, loopy {lv}, python {sys.version.split()[0]} as installed in /venv"],
           "wall_s": round(wall, 2), "violations": nviol,
           "technique": getattr(mod, "TECHNIQUE", "")}
-    os.makedirs(os.path.join(VERIF_DIR, "evidence"), exist_ok=True)
-    with open(os.path.join(VERIF_DIR, "evidence", pid + ".json"), "w") as f:
+    edir = os.path.join(os.environ.get("VERIF_OUT_DIR", VERIF_DIR), "evidence")
+    os.makedirs(edir, exist_ok=True)
+    with open(os.path.join(edir, pid + ".json"), "w") as f:
         json.dump(ev, f, indent=1, default=str)
 
 
